@@ -352,6 +352,8 @@ class ParameterCollection(metaclass=_ParameterCollectionType):
             setattr(self, name, value)
         except TypeError:  # allows for history parameter tuples
             if isinstance(name, tuple):
+                if getattr(self, "readOnly", False):
+                    raise RuntimeError(f"Cannot set a read-only parameter {name}.")
                 self._hist[name] = value
             else:
                 raise
@@ -363,6 +365,8 @@ class ParameterCollection(metaclass=_ParameterCollectionType):
             )
 
     def __delitem__(self, name):
+        if getattr(self, "readOnly", False):
+            raise RuntimeError(f"Cannot delete a read-only parameter {name}.")
         if isinstance(name, str):
             pd = self.paramDefs[name]
             if hasattr(self, pd.fieldName):
